@@ -20,6 +20,13 @@ import tempfile
 VERIF = os.path.dirname(os.path.dirname(os.path.abspath(__file__)))
 
 
+def _tmpdir(scratch: str) -> str:
+    """A temp directory inside the scratch copy: whatever the code under test or a demo leaves in $TMPDIR goes away with it."""
+    path = os.path.join(scratch, "tmp")
+    os.makedirs(path, exist_ok=True)
+    return path
+
+
 def sh(cmd, **kw):
     return subprocess.run(cmd, capture_output=True, text=True, **kw)
 
@@ -47,19 +54,19 @@ def main() -> int:
         if res.returncode != 0:
             print("patch does not apply:", res.stdout[-400:], res.stderr[-400:])
             return 2
-        env = dict(os.environ, PYTHONPATH=os.path.join(scratch, "src"), PYTHONDONTWRITEBYTECODE="1")
+        env = dict(os.environ, TMPDIR=_tmpdir(scratch), PYTHONPATH=os.path.join(scratch, "src"), PYTHONDONTWRITEBYTECODE="1")
         res = sh(["/venv/bin/python", "-m", "pytest", "-q", "-p", "no:cacheprovider", "--no-cov", "--timeout=120"], cwd=scratch, env=env)
         tail = (res.stdout.strip().splitlines() or [""])[-1]
         meta["confirmed"]["tests_pass_with_change"] = res.returncode == 0
         meta["ran"].append(f"cd <scratch> && PYTHONPATH=<scratch>/src /venv/bin/python -m pytest -q --no-cov  -> {tail}")
         res_with = sh(["/venv/bin/python", "-B", demo], env=env, cwd=scratch)
-        res_without = sh(["/venv/bin/python", "-B", demo], env=dict(os.environ, PYTHONPATH="/repo/src", PYTHONDONTWRITEBYTECODE="1"), cwd=scratch)
+        res_without = sh(["/venv/bin/python", "-B", demo], env=dict(os.environ, TMPDIR=_tmpdir(scratch), PYTHONPATH="/repo/src", PYTHONDONTWRITEBYTECODE="1"), cwd=scratch)
         meta["confirmed"]["demo_fails_with_change"] = res_with.returncode != 0
         meta["confirmed"]["demo_passes_without_change"] = res_without.returncode == 0
         meta["demo_output_with_change"] = (res_with.stdout + res_with.stderr).strip()[-500:]
         meta["ran"].append(f"demo with change -> exit {res_with.returncode}; demo on /repo/src -> exit {res_without.returncode}")
         out_dir = os.path.join(scratch, "verif-out")
-        env2 = dict(os.environ, VERIF_REPO_SRC=os.path.join(scratch, "src"), VERIF_OUT_DIR=out_dir)
+        env2 = dict(os.environ, TMPDIR=_tmpdir(scratch), VERIF_REPO_SRC=os.path.join(scratch, "src"), VERIF_OUT_DIR=out_dir)
         meta["checks"] = {}
         for chk in checks:
             res = sh([os.path.join(VERIF, "check"), chk, args.tier], cwd=VERIF, env=env2)
